@@ -33,6 +33,7 @@ Section Results.
     | OBuild goal =>
         forall w1 tbl pack, init_dir T w = Ok (w1, tbl) -> get_nodes T w1 RULES_PATH goal = Ok pack ->
                             Forall node_confined (p_nodes pack)
+    | OMove _ _ => False      (* the user's mv is outside the coarse theorems: see coarse_inv_mv_refuted below *)
     | _ => True
     end.
   Proof. intros w o. destruct o; reflexivity. Qed.
@@ -552,3 +553,55 @@ Theorem c18_legacy_primitive_refuted :
   | _ => False
   end.
 Proof. exact Legacy.C18_legacy_coarse_refuted. Qed.
+
+(* ================================================================== *)
+(* ==== the user's mv is outside the coarse invariant ==== *)
+(* ================================================================== *)
+
+(* After the second build of the swap history p ("Y") and q ("X") were written in one tick of the coarse clock:
+   same modification time, different contents, and coarse_inv holds (sw_inv_throughout).  The user's `mv p q` puts
+   at q a file that q's table entry (hash of "X", that very time) accepts: the per-path soundness is gone.  This is
+   why op_confined is False for OMove (confined_history contains no OMove); under the fine clock the user's mv is
+   harmless (MvFacts.mv_keeps_disk_inv). *)
+Definition mv_p : bytes := [112].   (* p *)
+Definition mv_q : bytes := [113].   (* q *)
+Definition sw_w2_mv : world sym := fst (apply_sym sw_w2 (OMove mv_p mv_q)).
+
+Example sw_w2_inv : coarse_inv sym_eqb SContent sw_w2.
+Proof. exact (sw_inv_throughout 7). Qed.
+
+Lemma sw_w2_mv_unsound :
+  exists tbl st f,
+    rd_table (w_rd sw_w2_mv) = Some (SF_ok tbl) /\ alookup bytes_eqb tbl mv_q = Some st /\
+    fget sw_w2_mv mv_q = Some f /\ shortcut sym_eqb SContent f st = true /\
+    fs_t st = SContent [88] /\ f_content f = [89].
+Proof. eexists _, _, _. vm_compute. repeat split. Qed.
+
+Lemma sw_w2_mv_not_inv : ~ coarse_inv sym_eqb SContent sw_w2_mv.
+Proof.
+  intros (_ & Hs & _). destruct sw_w2_mv_unsound as (tbl & st & f & Htb & Hl & Hf & Hsc & Ht & Hc).
+  pose proof (Hs tbl mv_q st Htb Hl f Hf Hsc) as H. rewrite Ht, Hc in H. discriminate.
+Qed.
+
+Theorem coarse_inv_mv_refuted :
+  exists (w : world sym) p q,
+    coarse_inv sym_eqb SContent w /\ safe_op sym (OMove p q) /\
+    ~ coarse_inv sym_eqb SContent (fst (apply_sym w (OMove p q))).
+Proof. exists sw_w2, mv_p, mv_q. split; [exact sw_w2_inv|]. split; [exact I | exact sw_w2_mv_not_inv]. Qed.
+
+(* the same, as the refutation of "coarse_inv_apply_op without the exclusion of OMove" *)
+Theorem coarse_inv_apply_op_mv_refuted :
+  ~ (forall (w : world sym) (o : op sym),
+       coarse_inv sym_eqb SContent w -> safe_op sym o ->
+       match o with OBuild goal => build_confined sym w goal | _ => True end ->
+       coarse_inv sym_eqb SContent (fst (apply_sym w o))).
+Proof. intro H. apply sw_w2_mv_not_inv. apply (H sw_w2 (OMove mv_p mv_q) sw_w2_inv I I). Qed.
+
+(* and it is not only the invariant: on that world the conclusion of C18 itself fails -- with the saved table q
+   ("Y" now) is taken for "X" through the shortcut and left alone, with the table erased it is hashed and rebuilt *)
+Example sw_w2_mv_c18_fails :
+  content_at (o_world (build_sym sw_w2_mv RULES_PATH None)) mv_q = Some [89] /\
+  content_at (o_world (build_sym (erase_table sym sw_w2_mv) RULES_PATH None)) mv_q = Some [88] /\
+  o_verdict (build_sym sw_w2_mv RULES_PATH None) = VOk /\
+  o_verdict (build_sym (erase_table sym sw_w2_mv) RULES_PATH None) = VOk.
+Proof. vm_compute. repeat split. Qed.
